@@ -105,6 +105,10 @@ func JSONGetNaturalLanguageField(val *fastjson.Value, prop string) NaturalLangua
 	}
 	v := val.Get(prop)
 	if v == nil {
+		// multiple language values are written under the "<prop>Map" term
+		v = val.Get(prop + "Map")
+	}
+	if v == nil {
 		return nil
 	}
 	switch v.Type() {
